@@ -827,10 +827,14 @@ func init() {
 			})
 			_, wcRecovers := c06RecoverOf("bigmachine", wc, helpers)
 			litRecovers := false
+			var wcRows []string
 			ast.Inspect(wc.Body, func(n ast.Node) bool {
 				if l, ok := n.(*ast.FuncLit); ok {
-					if _, ok := c06RecoverOf("bigmachine", &ast.FuncDecl{Name: ast.NewIdent("lit"), Type: l.Type, Body: l.Body}, helpers); ok {
+					// the merge goroutine: a literal of writeCombiner, described like the other recover sites
+					if r, ok := c06RecoverOf("bigmachine", &ast.FuncDecl{Name: wc.Name, Recv: wc.Recv, Type: l.Type, Body: l.Body}, helpers); ok {
 						litRecovers = true
+						wcRows = append(wcRows, fmt.Sprintf("mkRsite %s %s %s %s %s %s %s", c06Str(r.file), c06Str(r.fn),
+							c15Bool(r.fatal), c15Bool(r.wrapped), c15Bool(r.msg), c15Bool(r.setsResult), c15Bool(r.userFirst)))
 					}
 				}
 				return true
@@ -839,6 +843,106 @@ func init() {
 			fmt.Fprintf(&e.b, "Definition write_combiner_merges_in_goroutine : bool := %s.\n", c15Bool(c06Calls(wc.Body, "g.Go", true) && c06Calls(wc.Body, "combiner.WriteTo", true)))
 			fmt.Fprintf(&e.b, "Definition write_combiner_recovers : bool := %s.\n", c15Bool(wcRecovers || litRecovers))
 			fmt.Fprintf(&e.b, "Definition combiner_writeto_reads_merge : bool := %s.\n", c15Bool(c06Calls(wt.Body, "c.Reader", true) && c06Calls(rd.Body, "sortio.Reduce", true)))
+			fmt.Fprintf(&e.b, "Definition write_combiner_rsite : list rsite := [%s].\n", strings.Join(wcRows, "; "))
+			// what becomes of the merge's error: writeCombiner records it, CommitCombiner returns it,
+			// runCombine commits its own buffer when the task has no combine key, the driver's Run
+			// commits the buffers of its dependencies before it calls Worker.Run
+			{
+				records := false
+				for _, st := range wc.Body.List {
+					is, ok := st.(*ast.IfStmt)
+					if !ok || is.Init != nil || c14Print(px, is.Cond) != "err == nil" {
+						continue
+					}
+					if els, ok := is.Else.(*ast.BlockStmt); ok {
+						a, b := false, false
+						for _, x := range els.List {
+							switch c14Print(px, x) {
+							case "w.combinerErrors[key] = err":
+								a = true
+							case "w.combinerStates[key] = combinerError":
+								b = true
+							}
+						}
+						records = a && b
+					}
+				}
+				fmt.Fprintf(&e.b, "Definition write_combiner_records_error : bool := %s.\n", c15Bool(records))
+				ret := ""
+				ast.Inspect(commit.Body, func(n ast.Node) bool {
+					if cc, ok := n.(*ast.CaseClause); ok && len(cc.List) == 1 && c14Print(px, cc.List[0]) == "combinerError" && len(cc.Body) > 0 {
+						ret = c14Print(px, cc.Body[0])
+					}
+					return true
+				})
+				fmt.Fprintf(&e.b, "Definition commit_combiner_error_return : string := %s.\n", c06Str(ret))
+				ownCond := ""
+				ast.Inspect(wcomb.Body, func(n ast.Node) bool {
+					if is, ok := n.(*ast.IfStmt); ok && is.Init == nil && c06Calls(is.Body, "w.CommitCombiner", false) {
+						for _, st := range is.Body.List {
+							if as, ok := st.(*ast.AssignStmt); ok && as.Tok == token.ASSIGN && len(as.Lhs) == 1 && c14Print(px, as.Lhs[0]) == "err" && c06Calls(as, "w.CommitCombiner", false) {
+								ownCond = c14Print(px, is.Cond)
+							}
+						}
+					}
+					return true
+				})
+				fmt.Fprintf(&e.b, "Definition run_combine_commit_cond : string := %s.\n", c06Str(ownCond))
+				var kern []string
+				target, formats, done, returns := "?", false, false, false
+				ast.Inspect(brun.Body, func(n ast.Node) bool {
+					is, ok := n.(*ast.IfStmt)
+					if !ok || is.Init == nil || c14Print(px, is.Init) != "err := g.Wait()" || c14Print(px, is.Cond) != "err != nil" {
+						return true
+					}
+					target = c06Target(px, is.Body)
+					for _, st := range is.Body.List {
+						kern = append(kern, c14Print(px, st))
+					}
+					ast.Inspect(is.Body, func(m ast.Node) bool {
+						if c, ok := m.(*ast.CallExpr); ok {
+							switch c15CallName(c.Fun) {
+							case "task.Errorf":
+								if len(c.Args) >= 2 {
+									if bl, ok := c.Args[0].(*ast.BasicLit); ok && strings.Contains(bl.Value, "%v") {
+										for _, a := range c.Args[1:] {
+											if id, ok := a.(*ast.Ident); ok && id.Name == "err" {
+												formats = true
+											}
+										}
+									}
+								}
+							case "m.Done":
+								done = true
+							}
+						}
+						return true
+					})
+					if k := len(is.Body.List); k > 0 {
+						_, returns = is.Body.List[k-1].(*ast.ReturnStmt)
+					}
+					return false
+				})
+				fmt.Fprintf(&e.b, "Definition bm_commit_failure_kernel : list string := %s.\n", c06StrList(kern))
+				fmt.Fprintf(&e.b, "Definition bm_commit_failure_target : string := %s.\n", c06Str(target))
+				fmt.Fprintf(&e.b, "Definition bm_commit_failure_formats_error : bool := %s.\n", c15Bool(formats))
+				fmt.Fprintf(&e.b, "Definition bm_commit_failure_releases_and_returns : bool := %s.\n", c15Bool(done && returns))
+				fmt.Fprintf(&e.b, "Definition bm_run_commits_dependencies : bool := %s.\n", c15Bool(c06Calls(brun.Body, "b.commit", true)))
+				method := ""
+				if bc := px.findFunc("bigmachineExecutor.commit"); bc != nil && bc.Body != nil {
+					ast.Inspect(bc.Body, func(n ast.Node) bool {
+						if c, ok := n.(*ast.CallExpr); ok && len(c.Args) >= 2 {
+							if bl, ok := c.Args[1].(*ast.BasicLit); ok && bl.Value == strconv.Quote("Worker.CommitCombiner") {
+								if s, ok := c.Fun.(*ast.SelectorExpr); ok {
+									method = s.Sel.Name
+								}
+							}
+						}
+						return true
+					})
+				}
+				fmt.Fprintf(&e.b, "Definition bm_commit_call : string := %s.\n", c06Str(method))
+			}
 			// combineAndReturn hands the buffer back in a deferred send
 			back := false
 			if len(car.Body.List) > 0 {
